@@ -9,7 +9,8 @@ Inductive c19case :=
 | COperation (o : operation) (accepted : bool)
 | CJob (j : job) (accepted : bool)
 | CInstance (i : instance) (accepted : bool)
-| CResult (i : instance) (s : schedule) (accepted : bool).
+| CResult (i : instance) (s : schedule) (accepted : bool)
+| CStored (i : instance) (s : schedule) (per_key : schedule).   (* what result.schedule[k] holds for every key k the caller passed, in the caller's order *)
 
 Definition check_case (c : c19case) : bool :=
   match c with
@@ -23,4 +24,7 @@ Definition check_case (c : c19case) : bool :=
   | CJob j a => Bool.eqb (job_ok j) a
   | CInstance i a => Bool.eqb (instance_ok i) a
   | CResult i s a => Bool.eqb (result_ok i s) a
+  | CStored i s per_key =>
+      list_eqb (option_eqb (list_eqb psop_eqb)) (map (fun kv => schedule_of_job i s (fst kv)) s) (map (fun kv => Some (snd kv)) per_key)
+      && list_eqb job_eqb (map fst s) (map fst per_key)
   end.
